@@ -893,7 +893,7 @@ class HistogramBase(abc.ABC):
                 self._coerce_dtype(other.dtype)
                 self.frequencies = self.frequencies + other.frequencies
                 self.errors2 = self.errors2 + other.errors2
-                self._missed += other._missed
+                self._missed = self._missed + other._missed
             elif self.is_adaptive():
                 if other.missed > 0:
                     raise ValueError("Cannot adapt histogram with missed values.")
@@ -903,10 +903,13 @@ class HistogramBase(abc.ABC):
 
                 self._coerce_dtype(other.dtype)
 
+                # Find the common bins for all axes first (it may fail)
+                adapted = []
                 for i in range(self.ndim):
                     new_bins = self._binnings[i].copy()
-
                     map1, map2 = new_bins.adapt(other._binnings[i])
+                    adapted.append((new_bins, map1, map2))
+                for i, (new_bins, map1, map2) in enumerate(adapted):
                     self._change_binning(new_bins, map1, axis=i)
                     other._change_binning(new_bins, map2, axis=i)
                 self.frequencies = self.frequencies + other.frequencies
